@@ -298,49 +298,54 @@ def _s10(ctx):
     f2 = [i for i in fx.insts if i.name == "self.fifo" and ("2 <= depth", True) in i.pyguards]
     ok = len(f2) == 1
     ctx.ob("S10", STREAM, "SyncFIFO", "depth >= 2: Migen FIFO behind the wrapper", ok, "" if ok else "deep arm changed")
-    # ---- Pipeline
-    fx = FX(ctx, STREAM, cls="Pipeline", entries=("do_finalize",))
+    # ---- Pipeline: do_finalize interpreted (lxs/pyconst.py) on lists of opaque stages -- modules with sink/source endpoints, bare
+    #      Endpoints, a stage listed twice in a row -- and the recorded connect() calls compared with the chain
+    from .. import pyconst
     fin = m.method("Pipeline", "do_finalize")
-    loops = [n for n in ast.walk(fin) if isinstance(n, ast.For)]
-    ok = len(loops) == 1 and isinstance(loops[0].target, ast.Name) and norm(loops[0].iter) in ("range(1, n)", "range(1, len(self.modules))")
-    detail = "the loop over the modules changed"
-    if ok:
-        lp = loops[0]
-        iv = lp.target.id
-        asg = lambda body: {x.targets[0].id: norm(x.value) for x in body if isinstance(x, ast.Assign) and isinstance(x.targets[0], ast.Name)}
-        pre, inb = asg(fin.body), asg(lp.body)
-        X = [k for k, v in pre.items() if v == "self.modules[0]"]
-        Y = [k for k, v in inb.items() if v == f"self.modules[{iv}]"]
-        ok = len(X) == 1 and len(Y) == 1
-        detail = f"no variable holds modules[0] before the loop / modules[{iv}] inside it"
-        if ok:
-            X, Y = X[0], Y[0]
-            writesX = [x for x in ast.walk(lp) if isinstance(x, (ast.Assign, ast.AugAssign)) and
-                       any(isinstance(t, ast.Name) and t.id == X for t in (x.targets if isinstance(x, ast.Assign) else [x.target]))]
-            last = lp.body[-1]
-            ok = len(writesX) == 1 and writesX[0] is last and isinstance(last, ast.Assign) and norm(last.value) == Y
-            detail = f"`{X}` (the previous stage) is not advanced to `{Y}` (this stage) as the last step of each iteration: a stage is skipped or connected twice"
-            if ok:
-                # first-iteration view from FX: modules[0] -> modules[i], unless they are the same object
-                c = fx.conns[0]["conn"] if len(fx.conns) == 1 else None
-                ok = c is not None and norm(c.src) == "self.modules[0] if isinstance(self.modules[0], Endpoint) else self.modules[0].source" and \
-                    norm(c.dst) == f"self.modules[{iv}] if isinstance(self.modules[{iv}], Endpoint) else self.modules[{iv}].sink" and \
-                    not fx.conns[0]["guards"] and fx.conns[0]["pyguards"] == [(f"self.modules[0] is self.modules[{iv}]", False)]
-                detail = "previous stage's source (or the Endpoint itself) is not connected to this stage's sink (or the Endpoint itself)"
-    ctx.ob("S10", STREAM, "Pipeline.do_finalize", "module i-1's source connected to module i's sink, for i = 1..n-1", ok,
-           "" if ok else detail, fin)
-    exp = {}
-    for x in ast.walk(fin):
-        if isinstance(x, ast.If) and norm(x.test).startswith("hasattr("):
-            for y in x.body:
-                if isinstance(y, ast.Assign):
-                    exp[norm(y.targets[0])] = (norm(x.test), norm(y.value), x.lineno < loops[0].lineno if loops else None)
-    ok = bool(loops) and ok and exp.get("self.sink") == (f"hasattr({X}, 'sink')", f"{X}.sink", True) and \
-        exp.get("self.source") == (f"hasattr({X}, 'source')", f"{X}.source", False)
-    ctx.ob("S10", STREAM, "Pipeline.do_finalize", "pipeline sink = first module's sink, source = last module's source", ok,
-           "" if ok else f"{exp}", fin)
-    ok = len(fx.conns) == 1 and fx.conns[0]["conn"].omit is None and fx.conns[0]["conn"].keep is None
-    ctx.ob("S10", STREAM, "Pipeline.do_finalize", "full connect between stages (nothing omitted)", ok, "" if ok else "stage connect restricted")
+
+    def endpoint(name, log):
+        ep = pyconst.NS(__cls__={"Endpoint"}, name=name)
+        ep["connect"] = pyconst.Native(lambda other, **kw: log.append((name, other.get("name") if isinstance(other, pyconst.NS) else None, kw)) or
+                                       pyconst.Tok("stmt", len(log)))
+        return ep
+    verdicts = {}
+    for label, kinds in (("three modules", "MMM"), ("endpoint first", "EMM"), ("endpoint last", "MME"), ("endpoint in the middle", "MEM"),
+                         ("two stages", "MM"), ("one stage", "M")):
+        log = []
+        stages = []
+        for k, kind in enumerate(kinds):
+            if kind == "M":
+                stages.append(pyconst.NS(__cls__={"Module"}, name=f"m{k}", sink=endpoint(f"m{k}.sink", log), source=endpoint(f"m{k}.source", log)))
+            else:
+                stages.append(endpoint(f"e{k}", log))
+        me = pyconst.NS(modules=list(stages))
+        it = pyconst.Interp({"self": me})
+        try:
+            it.run(fin.body)
+        except Exception as ex:
+            ctx.need(False, f"Pipeline.do_finalize cannot be interpreted: {ex}")
+
+        def src_of(s_):
+            return s_["name"] if "Endpoint" in s_["__cls__"] else s_["source"]["name"]
+
+        def snk_of(s_):
+            return s_["name"] if "Endpoint" in s_["__cls__"] else s_["sink"]["name"]
+        want = [(src_of(a), snk_of(b), {}) for a, b in zip(stages, stages[1:])]
+        got_sink = me.get("sink")
+        got_source = me.get("source")
+        want_sink = stages[0].get("sink") if "Module" in stages[0]["__cls__"] else None
+        want_source = stages[-1].get("source") if "Module" in stages[-1]["__cls__"] else None
+        verdicts[label] = (log == want, (got_sink is want_sink or (want_sink is None and got_sink in (None, pyconst.UNKNOWN))) and
+                           (got_source is want_source or (want_source is None and got_source in (None, pyconst.UNKNOWN))), log, want)
+    bad = [(k, v) for k, v in verdicts.items() if not v[0]]
+    ctx.ob("S10", STREAM, "Pipeline.do_finalize", "module i-1's source connected to module i's sink, for i = 1..n-1", not bad,
+           "" if not bad else f"{bad[0][0]}: connects {[(a, b) for a, b, _ in bad[0][1][2]]}, expected {[(a, b) for a, b, _ in bad[0][1][3]]}: a stage is skipped, "
+                              f"connected twice or through the wrong endpoint", fin)
+    bad2 = [k for k, v in verdicts.items() if not v[1]]
+    ctx.ob("S10", STREAM, "Pipeline.do_finalize", "pipeline sink = first module's sink, source = last module's source", not bad2,
+           "" if not bad2 else f"{bad2[0]}: the pipeline's own sink/source are not the first stage's sink / the last stage's source", fin)
+    kw_used = [k for k, v in verdicts.items() if any(kw for _, _, kw in v[2])]
+    ctx.ob("S10", STREAM, "Pipeline.do_finalize", "full connect between stages (nothing omitted)", not kw_used, "" if not kw_used else "stage connect restricted")
     # ---- Buffer
     fx = fx_of(ctx, STREAM, "Buffer")
     pl = [i for i in fx.insts if i.name == "self.pipeline" and i.call is not None]
